@@ -286,6 +286,8 @@ def run(chk):
   if n_scalar < 10:
     raise AnalysisError('only %d scalar UDF implementations recognised' % n_scalar)
 
+  K.dialect_entangles(chk, 'C20-R3', engines=('sqlite',))
+
   chk.rule('C20-R4', 'SQLite function / infix templates format without error '
            'for every admissible argument count', min_instances=20)
   from rules.c09 import template_tables
